@@ -204,7 +204,7 @@ func (fx *FnExec) run(st *State, args []*Val, binds []*Val) (*State, *Val) {
 			for i := len(ts) - 2; i >= 0; i-- {
 				body = ite(pcs[i], ts[i], body)
 			}
-			return e.c.defineAlways(hint, sort, body)
+			return e.c.defineEq(hint, sort, body)
 		}
 		res := fn.Signature.Results()
 		var rt types.Type = res
@@ -508,7 +508,7 @@ func (fx *FnExec) execBlock(b *ssa.BasicBlock, st *State, loop *loopInfo) {
 			fx.rets = append(fx.rets, st)
 			fx.retVals = append(fx.retVals, rv)
 			fx.retPos = append(fx.retPos, in.Pos())
-			if fx.isTop {
+			if fx.isTop && !(fx.con != nil && fx.con.DeadReturns[len(fx.rets)]) {
 				if o := e.addObl("reach", fmt.Sprintf("return:%s", e.exprText(fx.fn, in.Pos())), e.autoTags("reach", fx.fn), st, "true", in.Pos()); o != nil {
 					o.Reach = true
 					o.Static = ""
@@ -916,7 +916,7 @@ func (fx *FnExec) execInstr(st *State, in ssa.Instruction) {
 			for i := len(ts) - 2; i >= 0; i-- {
 				body = ite(pcs[i], ts[i], body)
 			}
-			return e.c.define(hint, sort, body)
+			return e.c.defineEq(hint, sort, body)
 		}
 		fx.setReg(st, in, e.mergeVals(vals, mt, in.Type()))
 	case *ssa.Call:
@@ -1355,22 +1355,18 @@ func (fx *FnExec) execConvert(st *State, in *ssa.Convert) {
 		}
 		fx.setReg(st, in, scalar(e.c.define("cv", SInt, wrapMod(xv.L[0], to))))
 	case isInteger(from) && isFloat(to):
-		// exact for |x| < 2^53; otherwise RNE rounding of the real value
-		fx.setReg(st, in, scalar(e.c.define("i2f", SFP, "((_ to_fp 11 53) RNE (to_real "+xv.L[0]+"))")))
-		e.noteFeature("int->float conversion encoded with to_fp over Real")
+		// uninterpreted conversion with axioms that are proved as bit-vector/floating-point lemmas
+		// (/verif/contracts/lemmas/fp_*.smt2): monotone, finite, zero
+		fx.setReg(st, in, scalar(app(e.fpConvFuns(), xv.L[0])))
 	case isFloat(from) && isInteger(to):
 		lo, hi, _ := intRange(to)
 		x := xv.L[0]
-		// Go: out-of-range conversion is implementation-defined -> obligation
-		r := e.c.fresh("f2i", SInt)
-		tr := "(fp.roundToIntegral RTZ " + x + ")"
-		inr := and("(not (fp.isNaN "+x+"))", "(not (fp.isInfinite "+x+"))", "(fp.leq ((_ to_fp 11 53) RNE (to_real "+lo+")) "+tr+")", "(fp.leq "+tr+" ((_ to_fp 11 53) RNE (to_real "+hi+")))", "(<= "+lo+" "+r+")", "(<= "+r+" "+hi+")")
-		_ = inr
-		rng := and("(not (fp.isNaN "+x+"))", "(not (fp.isInfinite "+x+"))", "(<= "+lo+".0 (fp.to_real "+tr+"))", "(<= (fp.to_real "+tr+") "+hi+".0)")
-		e.addObl("nopanic", "conv:"+e.exprText(fx.fn, in.Pos()), fx.tagsNoPanic(), st, rng, in.Pos())
-		e.assume(st, implies(rng, eq("(to_real "+r+")", "(fp.to_real "+tr+")")))
+		// Go: a conversion whose truncated value is out of range is implementation-defined but never panics: the
+		// result is an arbitrary value of the type (f2i64 is constrained by the axioms only for in-range arguments)
+		e.fpConvFuns()
+		r := app("f2i64", x)
 		e.assume(st, and("(<= "+lo+" "+r+")", "(<= "+r+" "+hi+")"))
-		fx.setReg(st, in, scalar(r))
+		fx.setReg(st, in, scalar(e.c.define("f2i", SInt, r)))
 	case isFloat(from) && isFloat(to):
 		fx.setReg(st, in, xv)
 	case isString(to) || isString(from):
@@ -1771,4 +1767,47 @@ func (e *Engine) constArray(sort Sort, zero string) string {
 	ks, _ := arrayKeySort(sort)
 	e.c.axiom("zeroarr:"+name, fmt.Sprintf("(forall ((i!q %s)) (! (= (select %s i!q) %s) :pattern ((select %s i!q))))", ks, name, zero, name), name)
 	return name
+}
+
+func realLit(intLit string) string {
+	if strings.HasPrefix(intLit, "(- ") {
+		return "(- " + intLit[3:len(intLit)-1] + ".0)"
+	}
+	return intLit + ".0"
+}
+
+// addOneLit adds one to a non-negative decimal SMT integer literal.
+func addOneLit(s string) string {
+	if strings.HasPrefix(s, "(- ") {
+		return s
+	}
+	b := []byte(s)
+	i := len(b) - 1
+	for i >= 0 {
+		if b[i] == '9' {
+			b[i] = '0'
+			i--
+			continue
+		}
+		b[i]++
+		return string(b)
+	}
+	return "1" + string(b)
+}
+
+// fpConvFuns declares the uninterpreted int64<->float64 conversions and their axioms; returns the name of i2f.
+func (e *Engine) fpConvFuns() string {
+	c := e.c
+	if _, ok := c.decls["i2f64"]; ok {
+		return "i2f64"
+	}
+	c.fun("i2f64", []Sort{SInt}, SFP)
+	c.fun("f2i64", []Sort{SFP}, SInt)
+	c.axiom("fp:mono", "(forall ((x!q Int) (y!q Int)) (! (=> (<= x!q y!q) (fp.leq (i2f64 x!q) (i2f64 y!q))) :pattern ((i2f64 x!q) (i2f64 y!q))))", "i2f64")
+	c.axiom("fp:finite", "(forall ((x!q Int)) (! (and (not (fp.isNaN (i2f64 x!q))) (not (fp.isInfinite (i2f64 x!q)))) :pattern ((i2f64 x!q))))", "i2f64")
+	c.axiom("fp:zero", "(fp.eq (i2f64 0) (_ +zero 11 53))", "i2f64")
+	c.axiom("fp:sandwich", "(forall ((x!q Int) (y!q Int) (b!q (_ FloatingPoint 11 53))) (! (=> (and (<= 0 x!q) (<= x!q y!q) (<= y!q 9007199254740992) (fp.leq (i2f64 x!q) b!q) (fp.leq b!q (i2f64 y!q))) (and (<= x!q (f2i64 b!q)) (<= (f2i64 b!q) y!q))) :pattern ((i2f64 x!q) (i2f64 y!q) (f2i64 b!q))))", "f2i64")
+	c.axiom("fp:positive", "(forall ((b!q (_ FloatingPoint 11 53))) (! (=> (and (fp.geq b!q ((_ to_fp 11 53) RNE 1.0)) (fp.lt b!q ((_ to_fp 11 53) RNE 9223372036854775808.0))) (>= (f2i64 b!q) 1)) :pattern ((f2i64 b!q))))", "f2i64")
+	e.noteFeature("int64<->float64 conversions are uninterpreted with the axioms mono/finite/zero/sandwich/positive, each proved as a QF_FPBV lemma (contracts/lemmas/fp_*.smt2); transfer between the Int and the 64-bit vector reading of int64 is trusted")
+	return "i2f64"
 }
